@@ -160,7 +160,23 @@ func step(m model, op Op) (nm model, mustPanic bool, result any) {
 
 func eq(a, b []int) bool { return (len(a) == 0 && len(b) == 0) || reflect.DeepEqual(a, b) }
 
+// exec runs every transition as a one-thread program under the scheduler: a call that blocks for good (on a lock
+// that an earlier, rejected call left held) parks the thread, which the scheduler reports - outside the scheduler
+// it would hang the search.
 func exec(r *engine.Rec, name string) func(path []Op, op Op) seqx.Step {
+	body := execBody(r, name)
+	return func(path []Op, op Op) seqx.Step {
+		var st seqx.Step
+		ex := rt.RunOnce(rt.Config{Elide: true}, nil, []rt.ThreadSpec{{Name: "caller", Body: func() { st = body(path, op) }}})
+		if len(ex.Stuck) > 0 {
+			r.Violation("a call on a stack never returns (after a rejected call: something was left held)", fmt.Sprintf("stuck: %v\npath: %+v\nop: %+v", ex.SortedStuck(), path, op), seqx.Case[Op]{Search: name, Path: path, Op: op})
+			return seqx.Step{}
+		}
+		return st
+	}
+}
+
+func execBody(r *engine.Rec, name string) func(path []Op, op Op) seqx.Step {
 	return func(path []Op, op Op) seqx.Step {
 		cs := seqx.Case[Op]{Search: name, Path: path, Op: op}
 		viol := func(sig, detail string) seqx.Step {
@@ -233,7 +249,7 @@ func exec(r *engine.Rec, name string) func(path []Op, op Op) seqx.Step {
 				return viol(op.K+full+" panics but changes the stack", fmt.Sprintf("before %v cap %d after %v cap %d", m.vals, m.cap, s.AsArray(), s.GetCapacity()))
 			}
 			// private state that differs without being observable yet is a new state of the search
-			return seqx.Step{Key: gkey() + after, Size: len(m.vals), Expand: before != after}
+			return seqx.Step{Key: gkey() + after, Size: len(m.vals), Expand: before != after, Rejected: true}
 		}
 		r.Outcome("return")
 		if mustPanic {
